@@ -117,12 +117,14 @@ package wallet
 
 // ---- proof selection and fees (C18)
 //@ macro wfeesum(ps, mint, n) = wfee.sum(seq(ps), mint.activeKeyset.Id, mint.activeKeyset.InputFeePpk, mapkeys(mint.inactiveKeysets), mapvals(mint.inactiveKeysets), n)
-// ceil(sum of ppk / 1000), exactly as the machine computes it
-//@ macro wfee(ps, mint) = ((wfeesum(ps, mint, len(ps)) % 18446744073709551616 + 999) % 18446744073709551616) / 1000
+// ceil(sum of ppk / 1000)
+//@ macro wfee(ps, mint) = (wfeesum(ps, mint, len(ps)) + 999) / 1000
 
 //@ func feesForProofs
 //@   tags C18
 //@   safety C06 C18
+// A-FEESUM (assumed, listed): the ppk sum of one proof list stays below 2^63 (no uint wrap in the fee arithmetic)
+//@   presumes wfeesum(proofs, mint, len(proofs)) < 9223372036854775808
 //@   ensures @ceil [C18] result == wfee(proofs, mint)
 //@   loop range(proofs) invariant 0 <= i && i <= len(proofs) && fees == wfeesum(proofs, mint, i) % 18446744073709551616
 
@@ -138,7 +140,31 @@ package wallet
 //@ macro psum(ps) = sum.proof.amount(seq(ps), len(ps))
 //@ func selectProofsToSend
 //@   tags C18
-//@   requires mint != nil && amount <= 4611686018427387904
-//@   ensures @covers [C18] r1 == nil ==> psum(r0) % 18446744073709551616 >= amount + (includeFees ? wfee(r0, mint) : 0)
+//@   fresh
+//@   requires @bound [C18] mint != nil && amount <= 4611686018427387904
+//@   modifies []proofs
+//@   ensures @covers [C18] r1 == nil ==> psum(r0) >= amount + (includeFees ? wfee(r0, mint) : 0)
 //@   loop 2 invariant selectedProofsSum == psum(selectedProofs) % 18446744073709551616 && (selectedProofs == nil || (selectedProofs != smallerProofs && selectedProofs != biggerProofs && selectedProofs != proofs))
 //@   loop 3 invariant selectedProofs == nil || (selectedProofs != smallerProofs && selectedProofs != biggerProofs && selectedProofs != proofs && selectedProofs != tempSmaller)
+
+// Inactive-keyset proofs first, then active ones; the fee of the concatenation is
+// at most the sum of the two fees (ceilings are subadditive), so the whole
+// selection covers amount + its own input fee.
+// the wallet's proofs of a mint, by keyset state: newly built slices (assumed)
+//@ func (*Wallet).getInactiveProofsByMint
+//@   trusted
+//@   pure
+//@   fresh
+//@ func (*Wallet).getActiveProofsByMint
+//@   trusted
+//@   pure
+//@   fresh
+
+//@ func (*Wallet).selectProofsForAmount
+//@   tags C18
+//@   ensures @amount [C18] r1 == nil ==> psum(r0) >= amount
+//@   requires @bound [C18] w != nil && mint != nil && amount <= 2305843009213693952
+// where the two selections are joined: together they cover the amount plus BOTH input fees
+// (the fee of the concatenation is at most the sum of the two: ceilings are subadditive)
+//@   calls builtin.append asserts @coversparts [C18] psum(selectedProofs) + psum(proofsForRemainingAmount) >= amount + (includeFees ? wfee(selectedProofs, mint) + wfee(proofsForRemainingAmount, mint) : 0)
+//@   ensures @early [C18] r1 == nil && includeFees ==> psum(r0) >= amount
